@@ -48,7 +48,7 @@ MESHES = [
     ("cap", {}),
     ("two", {}),
 ]
-FILES = [{"kind": "file", "path": "ugrid/quad-hexagon/grid.nc"}, {"kind": "file", "path": "mpas/QU/mesh.QU.1920km.151026.nc"}, {"kind": "file", "path": "mpas/QU/mesh.QU.1920km.151026.nc", "subset": [5, 17, 3, 44, 60, 61, 100, 101, 9, 150]}]
+FILES = [{"kind": "file", "path": "ugrid/quad-hexagon/grid.nc"}, {"kind": "file", "path": "mpas/QU/mesh.QU.1920km.151026.nc"}, {"kind": "file", "path": "mpas/QU/mesh.QU.1920km.151026.nc", "use_dual": True}, {"kind": "file", "path": "mpas/QU/mesh.QU.1920km.151026.nc", "subset": [5, 17, 3, 44, 60, 61, 100, 101, 9, 150]}]
 SRC_DERIVE = [
     "n_edge", "edge_node_connectivity", "face_edge_connectivity", "edge_face_connectivity", "node_face_connectivity", "face_face_connectivity",
     "face_lon", "face_x", "edge_lon", "edge_x", "node_x", "face_areas", "bounds", "edge_node_distances", "edge_face_distances",
